@@ -440,7 +440,20 @@ then the scheme is a letter, letters/digits/`+`/`-`/`.`, and `:` -/
 def whatwgPre (v : Bytes) : Bytes :=
   (((v.dropWhile (· ≤ 32)).reverse.dropWhile (· ≤ 32)).reverse).filter fun c => c != 9 && c != 10 && c != 13
 
-def browserScheme (v : Bytes) : Option Bytes := schemeOf (whatwgPre v)
+/-- WHATWG "scheme start state" / "scheme state", stated independently of the parser's own classes -/
+def wAlpha (c : UInt8) : Bool := (65 ≤ c && c ≤ 90) || (97 ≤ c && c ≤ 122)
+def wSchemeChar (c : UInt8) : Bool := wAlpha c || (48 ≤ c && c ≤ 57) || c = 43 || c = 45 || c = 46
+
+def wSchemeOf : Bytes → Option Bytes
+  | c :: rest =>
+    if wAlpha c && (rest.dropWhile wSchemeChar).head? == some 58 then some (c :: rest.takeWhile wSchemeChar) else none
+  | [] => none
+
+def browserScheme (v : Bytes) : Option Bytes := wSchemeOf (whatwgPre v)
+
+/-- the parser's `scheme()` uses exactly the WHATWG classes (checked against the regenerated conditions) -/
+theorem scheme_classes : ∀ c : UInt8, isAlpha c = wAlpha c ∧ schemeChar c = wSchemeChar c := by
+  apply forall_uint8; decide +kernel
 
 theorem dropWhile_none {p : UInt8 → Bool} : ∀ {l : Bytes}, (∀ c ∈ l, p c = false) → l.dropWhile p = l := by
   intro l h
@@ -541,9 +554,18 @@ theorem safe_decode {s : Bytes} (h : Safe s) : ∀ c ∈ decodeRefs s, 33 ≤ c 
     · exact ih d hd
 
 /-- for a `Safe` text the scheme a browser sees in the decoded attribute value is the scheme the parser saw -/
+theorem wSchemeOf_eq (v : Bytes) : wSchemeOf v = schemeOf v := by
+  have h1 : wAlpha = isAlpha := funext fun c => ((scheme_classes c).1).symm
+  have h2 : wSchemeChar = schemeChar := funext fun c => ((scheme_classes c).2).symm
+  cases v with
+  | nil => rfl
+  | cons c rest =>
+    rw [schemeOf_cons]
+    simp only [wSchemeOf, h1, h2, Bool.and_eq_true, beq_iff_eq]
+
 theorem browserScheme_decode {v : Bytes} (h : Safe v) : browserScheme (decodeRefs v) = schemeOf v := by
   unfold browserScheme
-  rw [whatwgPre_id _ (safe_decode h)]
+  rw [wSchemeOf_eq, whatwgPre_id _ (safe_decode h)]
   cases h with
   | nil => rfl
   | byte c s hc hs =>
